@@ -54,6 +54,23 @@ def main():
         sh("git -C /repo worktree remove --force %s" % wt)
     confirmed = res.get("demo_passes_without_patch") and res.get("patch_applies") and res.get("demo_fails_with_patch") and res.get("suite_passes_with_patch")
     res["confirmed"] = bool(confirmed)
+    if os.environ.get("SEED_SCRATCH"):
+        # same evaluation against a patched scratch copy (used while other jobs read /repo)
+        sc = tempfile.mkdtemp(prefix="seedscratch_")
+        detected = {}
+        try:
+            sh("rsync -a --exclude .git /repo/ %s/r/" % sc)
+            rc, out = sh("git apply --unsafe-paths --directory=%s/r %s" % (sc, patch), cwd=sc)
+            if rc == 0:
+                sh("./run.sh build", cwd="/verif")
+                for p in props:
+                    rcq, outq = sh("/verif/bin/vxcheck -p %s -tier quick -repo %s/r -verif /verif -no-evidence" % (p, sc), cwd="/verif")
+                    lines = [l for l in outq.splitlines() if l.startswith(("VIOLATED", "UNDECIDED"))]
+                    detected[p] = {"exit": rcq, "reports": lines[:6]}
+        finally:
+            shutil.rmtree(sc, ignore_errors=True)
+        finish(res, detected, keep, pid, x, patch, demo, meta, pkgdir)
+        return
     # run the checks against the patched /repo
     rc, out = sh("git -C /repo status --porcelain")
     if out.strip():
@@ -71,6 +88,9 @@ def main():
         # evidence files were rewritten against the patched tree: restore them
         for p in props:
             sh("./run.sh quick %s" % p, cwd="/verif")
+    finish(res, detected, keep, pid, x, patch, demo, meta, pkgdir)
+
+def finish(res, detected, keep, pid, x, patch, demo, meta, pkgdir):
     res["checks"] = detected
     res["caught_by"] = [p for p, d in detected.items() if d["exit"] == 1]
     print(json.dumps({k: v for k, v in res.items() if k != "meta"}, indent=1))
